@@ -7,9 +7,14 @@
 
 """Util functions to handle random seeds."""
 
+import threading
 from contextlib import contextmanager
 
 import numpy as np
+
+# The legacy random generator of numpy is shared by all threads.
+# This lock ensures that only one thread at a time uses a temporary seed.
+_SEED_LOCK = threading.RLock()
 
 
 @contextmanager
@@ -24,12 +29,13 @@ def set_random_seed(seed: int | None = None):
         value = np.random.random()
     """
     if seed is not None:
-        previous_state = np.random.get_state()
-        try:
-            np.random.seed(seed)
-            yield
-        finally:
-            np.random.set_state(previous_state)
+        with _SEED_LOCK:
+            previous_state = np.random.get_state()
+            try:
+                np.random.seed(seed)
+                yield
+            finally:
+                np.random.set_state(previous_state)
     else:
         # Do nothing
         yield
